@@ -110,3 +110,46 @@ pub fn pause(point: &str) {
         }
     }
 }
+
+thread_local! {
+    static PENDING_TOK: std::cell::Cell<u64> = const { std::cell::Cell::new(0) };
+}
+
+/// Remembers the token of the task about to be registered as a job (same thread, no await between).
+pub fn set_pending_tok(tok: u64) {
+    PENDING_TOK.with(|c| c.set(tok));
+}
+
+/// Takes the token remembered by `set_pending_tok` (0 if none).
+pub fn take_pending_tok() -> u64 {
+    PENDING_TOK.with(|c| c.replace(0))
+}
+
+/// Emits `task_begin` when created and `task_end` when dropped, i.e. after the body of the
+/// background task has completed and before its join handle becomes ready.
+#[derive(Debug)]
+pub struct TaskGuard(u64);
+
+impl TaskGuard {
+    /// Starts tracking the task with the given token.
+    pub fn new(tok: u64) -> Self {
+        pause("job_task_start");
+        #[allow(clippy::cast_possible_wrap)]
+        event("task_begin", &[("tok", tok as i64)]);
+        Self(tok)
+    }
+}
+
+impl Drop for TaskGuard {
+    fn drop(&mut self) {
+        pause("job_task_end");
+        #[allow(clippy::cast_possible_wrap)]
+        event("task_end", &[("tok", self.0 as i64)]);
+    }
+}
+
+/// Converts an id to the integer type of event fields.
+#[allow(clippy::cast_possible_wrap)]
+pub const fn i(v: u64) -> i64 {
+    v as i64
+}
